@@ -308,12 +308,22 @@ def used_qubit_helper_polarity(ctx, rep, rule):
     t = par[0].test
     conj = t.values if isinstance(t, ast.BoolOp) and isinstance(t.op, ast.And) else [t]
     member = [c for c in conj if isinstance(c, ast.Compare) and isinstance(c.ops[0], (ast.In, ast.NotIn))]
-    if member and isinstance(member[0].ops[0], ast.In) and not isinstance(t, ast.UnaryOp):
-        rep.ok(rule, cons, f"`{ast.unparse(t)[:70]}`", f"{ra.path}:{par[0].lineno}")
-    elif not member:
-        rep.undecided(rule, cons, f"`{ast.unparse(t)[:70]}` has no membership test", f"{ra.path}:{par[0].lineno}")
-    else:
+    resolves = any(isinstance(c, ast.Call) and isinstance(c.func, ast.Attribute) and c.func.attr == "resolve_value" for b in par[0].body for c in ast.walk(b))
+    if member and isinstance(member[0].ops[0], ast.NotIn):
         rep.violation(rule, cons, f"`{ast.unparse(t)[:80]}`: a parameter is resolved when it is NOT bound (JaqalError / KeyError) and left alone when it is, so an argument that is a parameter of the enclosing macro is never replaced by the caller's value", f"{ra.path}:{par[0].lineno}")
+    elif len(conj) > 1 or isinstance(t, ast.BoolOp):
+        rep.violation(rule, cons, f"`{ast.unparse(t)[:80]}`: a parameter that is not bound in the caller's scope falls through and is handed to the callee as it is, where a parameter of the callee with the same name captures it (`macro inner y x {{ Px y }}; macro outer x {{ inner r[x] 1 }}`: outer's x becomes inner's x = 1)", f"{ra.path}:{par[0].lineno}", witness="get_used_qubit_indices(circuit.macros['outer'].body)")
+    elif resolves:
+        rep.ok(rule, cons, "every parameter is resolved in the caller's scope (an unbound one raises)", f"{ra.path}:{par[0].lineno}")
+    else:
+        rep.undecided(rule, cons, f"`{ast.unparse(t)[:70]}`", f"{ra.path}:{par[0].lineno}")
+    # no handler hands the raw argument on
+    cons = construct_of(ra, "unresolved-not-forwarded")
+    swallow = [h for tr in ast.walk(ra.node) if isinstance(tr, ast.Try) for h in tr.handlers if any(isinstance(r_, ast.Return) and isinstance(r_.value, ast.Name) and r_.value.id == argn for r_ in ast.walk(h))]
+    if swallow:
+        rep.violation(rule, cons, "a qubit argument that cannot be resolved in the caller's scope is returned as it is (`except JaqalError: return arg`) and is later resolved by name in the CALLEE's scope: dynamic scoping", f"{ra.path}:{swallow[0].lineno}")
+    else:
+        rep.ok(rule, cons, "a failure to resolve propagates", ra.loc())
     cons = construct_of(ra, "named-qubit")
     t = nq[0].test
     if isinstance(t, ast.Call) and isinstance(t.func, ast.Name) and t.func.id == "isinstance":
@@ -544,6 +554,7 @@ EXTRA = {
     "C19": [(raw_children, "C19.7", [_ALG + "unit_timing"], "blocks below the node are not normalised")],
     "C20": [(eq_polarity, "C20.9")],
     "C01": [(identifier_validity, "C01.12")],
+    "C07": [(used_qubit_helper_polarity, "C07.9")],
 }
 
 
